@@ -29,12 +29,12 @@ MCMC = "xitorch/_impls/integrate/mcsamples/mcmc.py"
 
 def rules(model: Model, tier: str) -> List[RuleResult]:
     fc = ac.get_fncls(model, "_MCQuad")
-    R1 = RuleResult(PROP, "AC1", "arity of _MCQuad.backward and of _mcquad's apply calls", min_instances=3)
+    R1 = RuleResult(PROP, "AC1", "arity of _MCQuad.backward and of _mcquad's apply calls", min_instances=2)
     R2 = RuleResult(PROP, "AC2", "all eleven fixed slots return the literal None", min_instances=11)
     R3 = RuleResult(PROP, "AC3", "create_graph follows torch.is_grad_enabled() in mcquad.py", min_instances=2)
     R4 = RuleResult(PROP, "AC4", "both pull-backs of the augmented integrand: allow_unused=True and None -> zeros", min_instances=4)
     R5 = RuleResult(PROP, "AC5", "recursive _mcquad receives the saved options by ** splat", min_instances=1)
-    R6 = RuleResult(PROP, "AC6", "layout: four segments, three count slots, object parameters of both pure functions", min_instances=7)
+    R6 = RuleResult(PROP, "AC6", "layout: four segments, three count slots, object parameters of both pure functions", min_instances=4)
     U = RuleResult(PROP, "C16-U", "every named parameter is read", min_instances=20)
     S = RuleResult(PROP, "C16-S", "two-phase sampler protocol of mh / mhcustom", min_instances=6)
     N = RuleResult(PROP, "C16-N", "sample / step counts of the sampler loops", min_instances=2)
@@ -542,7 +542,7 @@ def _weights(model: Model, W: RuleResult):
         sname = rets[0].value.elts[0]
         wname = rets[0].value.elts[1]
         defs = function_defs(f.node)
-        wd = defs.get(wname.id, []) if isinstance(wname, ast.Name) else []
+        wd = defs.get(wname.id, []) if isinstance(wname, ast.Name) else [wname]       # the expression may be written in the return itself
         what = "%s weights = %s" % (name, norm_stmt(wd[0], 90) if wd else None)
         if len(wd) != 1:
             W.undecided(f, rets[0], "%s: the weights are not defined by a single expression" % name)
